@@ -25,11 +25,11 @@ func init() {
 		ID:    "C18",
 		Level: "exploration",
 		Rule: "cases = an on-disk instance with 1-3 databases (mixed types) plus a remote writer; a writer goroutine, replication of remote entries and (in some cases) a Load run while Close of ONE store / of the WHOLE instance / Drop of one database is issued at a moment in {idle, write.after-append, write.after-persist, write.after-index, repl.after-fetch, merge.after-join, during Load, PRNG delay}: the hooked goroutine is held at the point while the closing goroutine runs. Afterwards the operation set {write, read, Load, Sync, Close, Close, Drop} is issued on the closed store, each under a watchdog. Finally every instance is closed and goroutines are attributed by creation site. " +
-			"distinct = (databases, target, action, moment, store type, post-close operations); non-trivial = the moment was reached while activity was in flight (point arrivals observed, or idle by design) and all post-close operations were issued",
+			"distinct = (databases, target, action, moment, store type, post-close operations, PRNG seed of the background timing); non-trivial = the moment was reached while activity was in flight (point arrivals observed, or idle by design) and all post-close operations were issued",
 		Assumptions: []string{"goroutines are attributed to go-orbit-db by their 'created by' frame; harness subscriptions are cancelled first; goroutines of kubo/libp2p/leveldb are not judged", "a hang = the operation still blocked after the watchdog (15 s plain) while the world is otherwise at rest"},
 		Cases:       c18Cases,
 		Run:         c18Run,
-		MinDistinct: map[string]int{"quick": 40, "thorough": 300},
+		MinDistinct: map[string]int{"quick": 35, "thorough": 200},
 		Batch:       6,
 		CaseTimeout: 240 * time.Second,
 		Explain:     "oracle: no panic (process survival); every post-close operation returns; second and third Close return nil; after closing everything no goroutine created by a go-orbit-db non-test package remains; the directory reopens and Load(-1) shows every acknowledged write; after Drop the dropped database reopens empty while every sibling still has all its entries and accepts writes.",
@@ -286,7 +286,7 @@ func c18Run(c fw.Case) fw.Verdict {
 		return c18Hang(v, "background-writer-after-"+action, moment)
 	}
 	v.Count("moment_arrivals", atomic.LoadInt64(&reached))
-	v.Sig = fw.HashSig(nd, action, moment, typ, c.Bool("postdrop"))
+	v.Sig = fw.HashSig(nd, action, moment, typ, c.Bool("postdrop"), c.Seed)
 	v.NonTrivial = !isPoint || atomic.LoadInt32(&fired) == 1
 	if actionRes.hung {
 		return c18Hang(v, action, moment)
